@@ -25,4 +25,21 @@ structure Dgram where
 def specKey (d : Dgram) : Nat × Option Nat :=
   (d.remote, match d.loc with | .concrete ip => some ip | _ => none)
 
+/-- events of a datagram server as the specification sees them (mirrors `Model.Server.Ev` without table internals) -/
+inductive SEv
+  | dgram (remote : Nat) (wellFormed : Bool)
+  | newConn (remote : Nat)
+  | closePeer (remote : Nat)
+  deriving Repr, DecidableEq
+
+/-- **Specification of the peer table on one listener address**: a peer has a live entry exactly when its latest event is
+    a well-formed datagram or a server-initiated connection (a malformed datagram or a close ends it); never two entries.
+    `live` lists the peers in the order their current entries were created. -/
+def liveStep (live : List Nat) : SEv → List Nat
+  | .dgram r wf => if wf then (if live.contains r then live else live ++ [r]) else live.filter (· != r)
+  | .newConn r => if live.contains r then live else live ++ [r]
+  | .closePeer r => live.filter (· != r)
+
+def liveSpec (evs : List SEv) : List Nat := evs.foldl liveStep []
+
 end CoapVerif.Spec.Server
